@@ -22,7 +22,8 @@ REQUIRED_CLASSES = ["equiv-ok", "dispatch-ok", "fault-run-ok"]
 RULE = ("datasets: plain {flat gzip, flat no-gzip, deep gzip behind the "
         "documented rewrite rule}; sharded with bit triples {0,1,2}^3 + "
         "(3,0,1) x raw/gzip (plus 6 datasets whose index and data encodings "
-        "differ) x grids 2^3 and (3,2,1), as .shard files and "
+        "differ, 3 datasets with chunks of 0.7-2.4 MB - fault-free runs only - and 6 with 512-1024 "
+        "minishards per shard) x grids 2^3 and (3,2,1), as .shard files and "
         "split into legacy .index/.data; URL spellings {plain, trailing "
         "slash, precomputed:// prefix, https}. A state = (history prefix, "
         "answers given so far); a transition = one answered request. "
@@ -78,6 +79,17 @@ def sharded_datasets(tier):
                     out.append({"kind": "sharded", "triple": list(t),
                                 "enc": enc, "size": list(size),
                                 "legacy": legacy})
+    # chunks of 0.7 - 2.4 MB (ranged reads beyond 1 MiB) and shards with
+    # 512 / 1024 minishards
+    for legacy in (False, True):
+        out.append({"kind": "sharded", "triple": [1, 1, 0], "enc": "raw",
+                    "size": [2, 2, 1], "legacy": legacy, "mult": 350000})
+    out.append({"kind": "sharded", "triple": [0, 0, 0], "enc": "gzip",
+                "size": [2, 1, 1], "legacy": False, "mult": 350000})
+    for mb, sb in ((9, 0), (10, 1), (9, 3)):
+        for legacy in (False, True):
+            out.append({"kind": "sharded", "triple": [mb, sb, 0],
+                        "enc": "raw", "size": [3, 2, 1], "legacy": legacy})
     # index and data encoded differently
     for t in ((1, 1, 0), (0, 0, 0), (2, 1, 1)):
         for ienc, enc in (("raw", "gzip"), ("gzip", "raw")):
@@ -108,6 +120,7 @@ def build(ds, root):
                 acc.store_chunk(bytes(se.payload(i)) * 3, KEY, cc)
         return [(KEY, cc, bytes(se.payload(i)) * 3 if i != 4 else None)
                 for i, cc, cid in chunks]
+    mult = ds.get("mult", 1)
     cfg = {"size": ds["size"], "chunk": 1, "triple": ds["triple"],
            "index_enc": ds.get("ienc", ds["enc"]), "data_enc": ds["enc"],
            "strategy": "in memory"}
@@ -119,9 +132,9 @@ def build(ds, root):
     chunks1 = se.chunk_list(size1, 1)
     for i, cc, cid in chunks:
         if i != 4:
-            w.store_chunk(bytes(se.payload(i)), KEY, cc)
+            w.store_chunk(bytes(se.payload(i)) * mult, KEY, cc)
     for i, cc, cid in chunks1:
-        w.store_chunk(bytes(se.payload(i + 50)), "s1", cc)
+        w.store_chunk(bytes(se.payload(i + 50)) * mult, "s1", cc)
     with sandbox.quiet():
         w.close()
     if ds["legacy"]:
@@ -137,9 +150,10 @@ def build(ds, root):
                     with open(p[:-6] + ".data", "wb") as f:
                         f.write(data[n:])
                     os.unlink(p)
-    out = [(KEY, cc, bytes(se.payload(i)) if i != 4 else None)
+    out = [(KEY, cc, bytes(se.payload(i)) * mult if i != 4 else None)
            for i, cc, cid in chunks]
-    out1 = [("s1", cc, bytes(se.payload(i + 50))) for i, cc, cid in chunks1]
+    out1 = [("s1", cc, bytes(se.payload(i + 50)) * mult)
+            for i, cc, cid in chunks1]
     # interleave the two scales: the reads alternate between them
     mixed = []
     for k in range(max(len(out), len(out1))):
@@ -401,6 +415,10 @@ def explore_dataset(col, ds, tier):
             # same results through different requests (e.g. a legitimate
             # cache): the deviation runs cannot be aligned with a recording
             col.ev(1, 1, "deviations-skipped/requests-not-repeatable")
+            return
+        if ds.get("mult"):
+            # megabyte-sized chunks: fault-free equivalence only
+            col.ev(1, 1, "deviations-skipped/big-chunks")
             return
         # ---- deviations (first URL spelling)
         url = URLS[0]
